@@ -367,7 +367,7 @@ def legacy_service_reachability(ctx, program, rid):
     """EvalFunc.trigger_init with every call a possible failure: exits on which a service stays registered although neither
     trigger_register (the context's stop() then reaches trigger_stop) nor a roll-back happened."""
     uid = "eval.py::EvalFunc.trigger_init"
-    pol = FlowPolicy(program, events=["Function.service_register", "trig_ctx.trigger_register", "self.trigger_stop"], may_raise_all=True, cancel=False,
+    pol = FlowPolicy(program, events=["Function.service_register", "trig_ctx.trigger_register", "self.trigger_stop", "self.trigger_service.add"], may_raise_all=True, cancel=False,
                      locals_={"self", "trig_ctx"}, record_atoms=False)
     pol.acquire_labels = {"Function.service_register"}
     pol.loop_unroll = 2
@@ -384,7 +384,7 @@ def legacy_service_reachability(ctx, program, rid):
     sites = [u.uid for u in program.functions() for m in body_walk(u.node) if isinstance(m, ast.Call) and (call_name(m) or "").endswith(".trigger_init")]
     if n_sites != 1 or sites != ["eval.py::AstEval.ast_functiondef"]:
         raise AnalysisError(f"trigger_init call sites changed: {sites}")
-    leaks_ret, leaks_exc, n_reg = [], [], 0
+    leaks_ret, leaks_exc, n_reg, unrecorded = [], [], 0, []
     for kind, c, desc in exits(out):
         evs = [e[1] for e in c.trace if e[0] == "call"]
         if "Function.service_register" not in evs:
@@ -396,12 +396,20 @@ def legacy_service_reachability(ctx, program, rid):
             leaks_ret.append(f"return at line {c.env.get('$retline', '?')}")
         if kind == "raise" and not handed and not caller_rolls_back:
             leaks_exc.append(desc)
+        rec = c.heap.get("self.trigger_service")
+        if kind == "raise" and not handed and isinstance(rec, ListV) and len(rec.items) < evs.count("Function.service_register"):
+            # the caller's roll-back is trigger_stop(), which removes the names recorded in trigger_service: a name registered but not yet recorded stays
+            unrecorded.append(desc)
     if n_reg == 0:
         raise AnalysisError("trigger_init: no path registers a service")
     ctx.check(not leaks_ret, rid, uid, "return paths with a registered service hand the function to its context",
               msg=f"legacy @service: trigger_init returns on {len(leaks_ret)} path(s) with a service registered but the function neither registered with its global context nor rolled back "
               f"(e.g. @service combined with @state_active/@time_active/@task_unique and no trigger): GlobalContext.stop() never reaches trigger_stop(), the HA service handler keeps the "
               f"function alive, so the service outlives its file", key="service registered, function not handed to context (return)", node=program.func(uid), rel="eval.py")
+    ctx.check(not unrecorded, rid, uid, "a registered name is recorded for removal before anything else can fail",
+              msg=f"legacy @service: on {len(unrecorded)} path(s) trigger_init fails after Function.service_register() and before the name is recorded in trigger_service "
+              f"({sorted(set(unrecorded))[:2]}; e.g. a doc string starting with 'yaml' that is not a mapping makes async_set_service_schema raise): the caller's trigger_stop() has nothing to "
+              f"remove, the service stays registered and counted for ever", key="service registered but not recorded (raise)", node=program.func(uid), rel="eval.py")
     # concrete alias lists: every registration made by trigger_init is matched by one removal in trigger_stop (the count is per registration)
     glob = {"TRIG_SERV_DECORATORS": ListV(tuple(Const(x) for x in ("service", "state_trigger", "event_trigger", "time_trigger", "mqtt_trigger", "webhook_trigger", "state_active",
                                                                    "time_active", "task_unique")), "set"),
